@@ -224,14 +224,22 @@ func (a Float) M__itruediv__(other Object) (Object, error) {
 
 func (a Float) M__floordiv__(other Object) (Object, error) {
 	if b, ok := convertToFloat(other); ok {
-		return Float(math.Floor(float64(a / b))), nil
+		q, _, err := floatDivMod(a, b)
+		if err != nil {
+			return nil, err
+		}
+		return q, nil
 	}
 	return NotImplemented, nil
 }
 
 func (a Float) M__rfloordiv__(other Object) (Object, error) {
 	if b, ok := convertToFloat(other); ok {
-		return Float(math.Floor(float64(b / a))), nil
+		q, _, err := floatDivMod(b, a)
+		if err != nil {
+			return nil, err
+		}
+		return q, nil
 	}
 	return NotImplemented, nil
 }
@@ -245,9 +253,34 @@ func floatDivMod(a, b Float) (Float, Float, error) {
 	if b == 0 {
 		return 0, 0, floatDivisionByZero
 	}
-	q := Float(math.Floor(float64(a / b)))
-	r := a - q*b
-	return q, Float(r), nil
+	// As float_divmod in CPython's floatobject.c
+	vx, wx := float64(a), float64(b)
+	mod := math.Mod(vx, wx)
+	// fmod is typically exact, so vx-mod is *mathematically* an exact
+	// multiple of wx, but not necessarily representable
+	div := (vx - mod) / wx
+	if mod != 0 {
+		// ensure the remainder has the same sign as the denominator
+		if (wx < 0) != (mod < 0) {
+			mod += wx
+			div -= 1.0
+		}
+	} else {
+		// the remainder is zero: give it the sign of the denominator
+		mod = math.Copysign(0, wx)
+	}
+	var floordiv float64
+	if div != 0 {
+		// snap quotient to nearest integral value
+		floordiv = math.Floor(div)
+		if div-floordiv > 0.5 {
+			floordiv += 1.0
+		}
+	} else {
+		// div is zero - get the same sign as the true quotient
+		floordiv = math.Copysign(0, vx/wx)
+	}
+	return Float(floordiv), Float(mod), nil
 }
 
 func (a Float) M__mod__(other Object) (Object, error) {
